@@ -138,12 +138,21 @@ def run_falseloop(sh, case):
 HDR = "from pymtl3 import *\n@bitstruct\nclass P:\n  a: mk_bits({w})\n  b: mk_bits({w})\n"
 
 
+FL_HDR = """class Chan(Component):
+  @blocking
+  def get(s):
+    return 0
+  def construct(s):
+    pass
+"""
+
+
 def templates(rng):
   """-> (name, source, expectation) ; expectation: list of (input, 'return'|'raise')"""
   w = rng.choice([1, 2, 4, 8, 16, 33, 64])
   n = rng.randrange(3, 14)
-  t = rng.randrange(9)
-  H = HDR.format(w=w)
+  t = rng.randrange(10)
+  H = HDR.format(w=w) + FL_HDR
   if t == 0:   # monotone, convergent
     body = f"""    s.a = InPort({w}); s.b = InPort({w}); s.x = Wire({w}); s.y = Wire({w})
     @update
@@ -207,6 +216,15 @@ def templates(rng):
     @update
     def up2(): s.y @= s.x"""
     return "update-once-in-cycle", H, body, "reject"
+  if t == 9:   # update_once that calls a @blocking method (wrapped into a greenlet before scheduling) inside the cycle -> rejected
+    k = rng.randrange(2, 5)          # ring of k+1 blocks: with k >= 2 some edge of the cycle lies between two unwrapped blocks
+    lines = [f"    s.a = InPort({w}); s.ch = Chan()"] + [f"    s.v{i} = Wire({w})" for i in range(k + 1)]
+    if rng.random() < 0.5: lines.append("    s.g = CallerIfcFL(); s.g //= s.ch.get")
+    call = "s.g()" if "s.g = " in lines[-1] else "s.ch.get()"
+    lines += ["    @update_once", f"    def up0(): s.v0 @= s.v{k} | s.a | {call}"]
+    for i in range(1, k + 1):
+      lines += ["    @update", f"    def up{i}(): s.v{i} @= s.v{i - 1}"]
+    return "greenlet-update-once-in-cycle", H, "\n".join(lines), "reject"
   # t == 8: saturating min chain (convergent after several iterations)
   body = f"""    s.a = InPort({w}); s.x = Wire({w}); s.y = Wire({w})
     @update
